@@ -852,9 +852,7 @@ class MasterSchemaRow:
                 raise MasterSchemaRowParsingError(log_message)
 
             # Set the parsed name and strip the brackets
-            parsed_name = remaining_sql_command[
-                match_object.start() : match_object.end()
-            ].strip("[]")
+            parsed_name = match_object.group(1)
 
             # Set the remaining sql
             remaining_sql_command = remaining_sql_command[match_object.end() :]
